@@ -44,7 +44,7 @@ MANIFEST = {
 def bounds(tier):
     if tier == "quick":
         return {"deviation_bound": 4, "bd_tips": [2, 3, 4], "kingman_n": [2, 3, 4], "species_leaves": [2, 3], "real_seeds": 64}
-    return {"deviation_bound": 6, "bd_tips": [2, 3, 4, 5], "kingman_n": [2, 3, 4, 5], "species_leaves": [2, 3], "real_seeds": 256}
+    return {"deviation_bound": 5, "bd_tips": [2, 3, 4, 5], "kingman_n": [2, 3, 4, 5], "species_leaves": [2, 3], "real_seeds": 256}
 
 
 # ---------------------------------------------------------------------------
